@@ -90,7 +90,7 @@ def strategy(tier):
     ver = st.tuples(st.integers(0, 65535), st.integers(0, 255), st.integers(0, 255)).map(list)
     a = st.builds(lambda blk, en, co, lab, pid, rev, rel, cv, lv, nm, cn, pt: {
         "part": "A", "block": blk, "en": en, "co": co, "label": lab, "pack_id": pid, "rev": rev, "rel": rel,
-        "cv": cv, "lv": lv, "name": nm, "config_number": cn, "pack_type": pt},
+        "cv": cv, "lv": lv, "name": nm, "config_number": cn, "pack_type": pt, "reuse": bool((cn + pt) % 2)},
         _block_strategy(), ver, ver, st.integers(0, 200), st.integers(0, 65535), st.integers(0, 255), st.integers(0, 255),
         st.integers(0, 255), st.integers(0, 255), name, st.integers(0, 255), st.integers(0, 255))
     length = st.one_of(st.integers(1, 1024), st.sampled_from([1, 38, 39, 40, 78, 117, 273, 1024]))
@@ -214,8 +214,19 @@ def _part_a(res, case):
         def __init__(self):
             self.facade = types.SimpleNamespace(spa=spa)
 
+    shell = StubShell()
+    if case.get("reuse"):
+        # the same shell session managed another spa before and took a snapshot of it (manage -> snapshot -> manage -> snapshot)
+        other = types.SimpleNamespace(**dict(vars(spa), intouch_version_en="{0} v{1}.{2}".format(en[0] ^ 1, en[1], (en[2] + 1) % 256),
+                                             intouch_version_co="{0} v{1}.{2}".format(co[0] ^ 1, co[1], (co[2] + 1) % 256), pack=labels[(int(case["label"]) + 1) % len(labels)],
+                                             config_version=(int(case["cv"]) + 1) % 256, log_version=(int(case["lv"]) + 3) % 256,
+                                             struct=types.SimpleNamespace(status_block=bytes(1024))))
+        shell.facade = types.SimpleNamespace(spa=other)
+        with _Capture():
+            GeckoShell.do_snapshot(shell, "previous spa")
+        shell.facade = types.SimpleNamespace(spa=spa)
     with _Capture() as cap:
-        GeckoShell.do_snapshot(StubShell(), name)
+        GeckoShell.do_snapshot(shell, name)
     snaps = _parse_text(res, cap.text(), "snapshot")
     if snaps is None:
         return block, name
